@@ -102,19 +102,19 @@ impl<T: Qcow2IoOps> Qcow2Dev<T> {
         key: usize,
         slice_off: usize,
         slice: L2Table,
-    ) -> Qcow2Result<()> {
-        match self
+    ) -> Qcow2Result<AsyncLruCacheEntry<L2TableHandle>> {
+        // keep holding the added entry, so that it can't be evicted by a
+        // concurrent insertion before the caller gets hold of it
+        let (entry, to_kill) = self
             .add_cache_slice(&self.l2cache, l1_e, key, slice_off, slice)
-            .await?
-        {
-            Some(to_kill) => {
-                log::warn!("add_l2_slice: cache eviction, slices {}", to_kill.len());
-                // figure exact dependency on refcount cache & reftable entries
-                self.flush_refcount().await?;
-                self.flush_cache_entries(to_kill).await
-            }
-            _ => Ok(()),
+            .await?;
+        if let Some(to_kill) = to_kill {
+            log::warn!("add_l2_slice: cache eviction, slices {}", to_kill.len());
+            // figure exact dependency on refcount cache & reftable entries
+            self.flush_refcount().await?;
+            self.flush_cache_entries(to_kill).await?;
         }
+        Ok(entry)
     }
 
     #[inline]
@@ -133,19 +133,17 @@ impl<T: Qcow2IoOps> Qcow2Dev<T> {
             split.guest_addr(),
         );
 
-        self.add_l2_slice(
-            l1_e,
-            key,
-            split.l2_slice_off_in_table(info),
-            L2Table::new(None, 1 << info.l2_slice_bits, info.cluster_bits()),
-        )
-        .await?;
+        let added = self
+            .add_l2_slice(
+                l1_e,
+                key,
+                split.l2_slice_off_in_table(info),
+                L2Table::new(None, 1 << info.l2_slice_bits, info.cluster_bits()),
+            )
+            .await?;
 
-        if let Some(entry) = l2_cache.get(key) {
-            Ok(entry)
-        } else {
-            Err("Fail to load l2 table".into())
-        }
+        // prefer what the cache holds now (and refresh its lru stamp)
+        Ok(l2_cache.get(key).unwrap_or(added))
     }
 
     #[inline]
